@@ -1,5 +1,6 @@
 import ZvbiModel.Cache.LemmasTtx
 import ZvbiModel.Cache.LemmasFix
+import ZvbiModel.Cache.LemmasAbsR
 /-!
 # C10 x C03/C02: the page list of the Teletext decoder model is the abstract map of the cache.c model
 
@@ -12,7 +13,8 @@ store `AStore` (`refines_map_get`, `refines_map_put` in Props/C10.lean).  The th
   content, `nid` is the network the decoder holds) the decoder's list evolves by exactly the abstract
   `alookup` / `atouch` / `aput` - same key rule (`Ttx.putKey = Cache.putKey`), same wildcard rule
   (`VBI_ANY_SUBNO` => mask 0), same move-to-front.
-* `sim_get`, `sim_put`: simulation.  If the entries of network `nid` retrievable in a cache.c state are the
+* `sim_get`, `sim_put`: simulation, for BOTH source shapes of `_vbi_cache_put_page` (`fix`: as found with finding F17,
+  repaired by fixes/C10-put-replaces-all-versions.diff; `Ttx.cachePut` follows `putReplacesAllVersions` like `stepCur`).  If the entries of network `nid` retrievable in a cache.c state are the
   decoder's list (`Sim`), then after a look-up / store performed on both sides they still are, and both
   sides hand out the same page (as `Entry`).  Hence a C02 / C03 statement about the page a decoder look-up
   returns is a statement about what `_vbi_cache_get_page` of the cache.c model returns.
@@ -33,11 +35,30 @@ theorem ttx_get_is_map (nid : Nat) (enc : Ttx.Page → Nat) (c : List Ttx.Page) 
 theorem ttx_key_rule (pt pgno subno : Nat) (h : pgno < 4294967296) : Ttx.putKey pt pgno subno = putKey pt pgno subno :=
   tputKey_eq pt pgno subno h
 
-/-- The decoder's store is the abstract store operation. -/
-theorem ttx_put_is_map (nid : Nat) (enc : Ttx.Page → Nat) (c : List Ttx.Page) (pt : Nat) (p : Ttx.Page)
-    (hp : p.pgno < 4294967296) (c' : List Ttx.Page) (hres : Ttx.cachePut c pt p = some c') :
-    tstore nid enc c' = aput (tstore nid enc c) (tentry nid enc (tstored pt p)) (putKey pt p.pgno p.subno).2 :=
-  (tcachePut_abs nid enc c pt p hp hres).2
+/-- The decoder's store is the abstract store operation, in BOTH source shapes of `_vbi_cache_put_page` (`fix`):
+    as found (`fix = false`) `aput` - the version found under the key is replaced -, with
+    fixes/C10-put-replaces-all-versions.diff (`fix = true`) `aputR` - under a single-version key (`mask = 0`) EVERY version of
+    the page number is replaced.  `Ttx.cachePut`, what the decoder model (C03 / C02 / C01) runs, is the shape
+    translate/gen_cache.py read from the current source (`putReplacesAllVersions`). -/
+theorem ttx_put_is_map (fix : Bool) (nid : Nat) (enc : Ttx.Page → Nat) (c : List Ttx.Page) (pt : Nat) (p : Ttx.Page)
+    (hp : p.pgno < 4294967296) (c' : List Ttx.Page) :
+    (Ttx.cachePutF fix c pt p = some c' →
+      tstore nid enc c' = aputF fix (tstore nid enc c) (tentry nid enc (tstored pt p)) (putKey pt p.pgno p.subno).2) ∧
+    (Ttx.cachePut c pt p = some c' →
+      tstore nid enc c' = aputF putReplacesAllVersions (tstore nid enc c) (tentry nid enc (tstored pt p))
+        (putKey pt p.pgno p.subno).2) ∧
+    (∀ a e mask, aputF false a e mask = aput a e mask) ∧ (∀ a e mask, aputF true a e mask = aputR a e mask) :=
+  ⟨fun hres => (tcachePutF_abs fix nid enc c pt p hp hres).2, fun hres => (tcachePut_abs nid enc c pt p hp hres).2,
+   fun _ _ _ => rfl, fun _ _ _ => rfl⟩
+
+/-- non-vacuity, and the difference between the shapes: page 100 is cached with sub-codes 1 and 2; a store with
+    sub-code 0x100 (single-version key) replaces the most recently used one as found, both when repaired -/
+example :
+    (Ttx.cachePutF false [{ Ttx.Page.zero with pgno := 0x100, subno := 1 }, { Ttx.Page.zero with pgno := 0x100, subno := 2 }] 0
+      { Ttx.Page.zero with pgno := 0x100, subno := 0x100 }).map (fun l => l.map (·.subno)) = some [0x100, 2] ∧
+    (Ttx.cachePutF true [{ Ttx.Page.zero with pgno := 0x100, subno := 1 }, { Ttx.Page.zero with pgno := 0x100, subno := 2 }] 0
+      { Ttx.Page.zero with pgno := 0x100, subno := 0x100 }).map (fun l => l.map (·.subno)) = some [0x100] := by
+  constructor <;> decide +kernel
 
 /-- the retrievable versions of network `nid` in a cache.c state are the decoder's page list -/
 def Sim (nid : Nat) (enc : Ttx.Page → Nat) (c : List Ttx.Page) (s : State) : Prop :=
@@ -57,23 +78,24 @@ theorem sim_get (fix : Bool) (ops : List Op) (nid : Nat) (enc : Ttx.Page → Nat
   · rw [g1, t1, ← hsim, alookup_filter]
   · rw [g2, atouch_filter, hsim]; exact t2.symm
 
-/-- Store on both sides (memory not short, the decoder's page type is the one in the cache statistics, the
-    stored content token is `enc` of the stored page): same page handed out, still in simulation.  Source shape as
-    found (`run`, `putPage`): the decoder model's `Ttx.cachePut` (owned by C03) follows that shape; with
-    fixes/C10-put-replaces-all-versions.diff applied it has to drop all versions under a single-version key as well. -/
-theorem sim_put (ops : List Op) (nid : Nat) (enc : Ttx.Page → Nat) (c : List Ttx.Page)
-    (hsim : Sim nid enc c (run init ops)) (cn : Net) (hf : (run init ops).findNet nid = some cn)
+/-- Store on both sides, BOTH source shapes of `_vbi_cache_put_page` (`fix`; memory not short, the decoder's page type
+    is the one in the cache statistics, the stored content token is `enc` of the stored page): same page handed out,
+    still in simulation.  The decoder model's store of shape `fix` (`Ttx.cachePutF fix`; `Ttx.cachePut` is the one of the
+    current source) against the cache.c model of the same shape (`runF fix`, `putPageF fix`).  Repaired shape: through
+    `putPageR_abs` (Cache/LemmasAbsR.lean), the list form of the store refinement. -/
+theorem sim_put (fix : Bool) (ops : List Op) (nid : Nat) (enc : Ttx.Page → Nat) (c : List Ttx.Page)
+    (hsim : Sim nid enc c (runF fix init ops)) (cn : Net) (hf : (runF fix init ops).findNet nid = some cn)
     (p : Ttx.Page) (hrange : 0x100 ≤ p.pgno ∧ p.pgno ≤ 0x8FF)
     (a : PutArg) (ha : a = ⟨p.pgno, p.subno, p.function, p.x26, p.x28, enc (tstored (cn.getStat p.pgno).ptype p)⟩)
-    (hroom : (run init ops).memUsed + pageSize a.func a.x26 a.x28 ≤ (run init ops).memLimit)
-    (c' : List Ttx.Page) (hc : Ttx.cachePut c (cn.getStat p.pgno).ptype p = some c')
-    (s' : State) (r : Option Page) (hres : (run init ops).putPage nid a = .ok (s', r)) :
+    (hroom : (runF fix init ops).memUsed + pageSize a.func a.x26 a.x28 ≤ (runF fix init ops).memLimit)
+    (c' : List Ttx.Page) (hc : Ttx.cachePutF fix c (cn.getStat p.pgno).ptype p = some c')
+    (s' : State) (r : Option Page) (hres : (runF fix init ops).putPageF fix nid a = .ok (s', r)) :
     r.map Page.entry = some (tentry nid enc (tstored (cn.getStat p.pgno).ptype p)) ∧ Sim nid enc c' s' := by
   have hp : p.pgno < 4294967296 := by omega
-  obtain ⟨hlow, t⟩ := tcachePut_abs nid enc c (cn.getStat p.pgno).ptype p hp hc
+  obtain ⟨hlow, t⟩ := tcachePutF_abs fix nid enc c (cn.getStat p.pgno).ptype p hp hc
   have hlow' : a.pgno &&& 0xFF ≠ 0xFF := by rw [ha]; exact hlow
   have hrange' : 0x100 ≤ a.pgno ∧ a.pgno ≤ 0x8FF := by rw [ha]; exact hrange
-  obtain ⟨g1, g2⟩ := putPage_abs (good_run ops).1 hf a hlow' hrange' hroom hres
+  obtain ⟨g1, g2⟩ := putPageF_abs fix (good_runF fix good_init ops).1 hf a hlow' hrange' hroom hres
   have he : putEntry nid a (putKey (cn.getStat a.pgno).ptype a.pgno a.subno).1
       = tentry nid enc (tstored (cn.getStat p.pgno).ptype p) := by
     rw [ha, tstored_eq]
@@ -85,12 +107,26 @@ theorem sim_put (ops : List Op) (nid : Nat) (enc : Ttx.Page → Nat) (c : List T
   · rw [g2, he]
   · rw [g1, he, hk]
     have hnet : (tentry nid enc (tstored (cn.getStat p.pgno).ptype p)).net = nid := rfl
-    have := aput_filter (run init ops).abs (tentry nid enc (tstored (cn.getStat p.pgno).ptype p))
+    have := aputF_filter fix (runF fix init ops).abs (tentry nid enc (tstored (cn.getStat p.pgno).ptype p))
       (putKey (cn.getStat p.pgno).ptype p.pgno p.subno).2
     rw [hnet] at this
     rw [this, hsim, t]
 
+/-- the decoder model as it runs (`Ttx.cachePut`, the shape translate/gen_cache.py read from the current source) against
+    the cache.c model of the current source (`stepCur` histories = `runF putReplacesAllVersions`) -/
+theorem sim_put_current (ops : List Op) (nid : Nat) (enc : Ttx.Page → Nat) (c : List Ttx.Page)
+    (hsim : Sim nid enc c (runF putReplacesAllVersions init ops)) (cn : Net)
+    (hf : (runF putReplacesAllVersions init ops).findNet nid = some cn)
+    (p : Ttx.Page) (hrange : 0x100 ≤ p.pgno ∧ p.pgno ≤ 0x8FF)
+    (a : PutArg) (ha : a = ⟨p.pgno, p.subno, p.function, p.x26, p.x28, enc (tstored (cn.getStat p.pgno).ptype p)⟩)
+    (hroom : (runF putReplacesAllVersions init ops).memUsed + pageSize a.func a.x26 a.x28
+      ≤ (runF putReplacesAllVersions init ops).memLimit)
+    (c' : List Ttx.Page) (hc : Ttx.cachePut c (cn.getStat p.pgno).ptype p = some c')
+    (s' : State) (r : Option Page) (hres : (runF putReplacesAllVersions init ops).putPageF putReplacesAllVersions nid a = .ok (s', r)) :
+    r.map Page.entry = some (tentry nid enc (tstored (cn.getStat p.pgno).ptype p)) ∧ Sim nid enc c' s' :=
+  sim_put putReplacesAllVersions ops nid enc c hsim cn hf p hrange a ha hroom c' hc s' r hres
+
 /-- non-vacuity: an empty decoder list simulates a cache in which network 0 has no page -/
-example : Sim 0 (fun _ => 0) [] (run init [.addNet]) := by unfold Sim; rfl
+example (fix : Bool) : Sim 0 (fun _ => 0) [] (runF fix init [.addNet]) := by unfold Sim; rfl
 
 end Zvbi.Props.C10Ttx
